@@ -1,0 +1,26 @@
+//go:build verif
+
+package serveruser
+
+import "net"
+
+// VerifYield, when set, is called at interleaving points of user discovery,
+// user reload and cache recording. It only exists in builds with the "verif"
+// tag (simulation harness).
+var VerifYield func(site string)
+
+func verifYield(site string) {
+	if f := VerifYield; f != nil {
+		f(site)
+	}
+}
+
+// VerifBucketIndex returns the source cache bucket of a source address, so
+// that the harness can find colliding sources.
+func VerifBucketIndex(addr net.Addr) (uint32, bool) {
+	key, ok := sourceUserCacheKey(addr)
+	if !ok {
+		return 0, false
+	}
+	return sourceUserCacheBucketIndex(key), true
+}
